@@ -333,17 +333,18 @@ Section Model.
   Definition p_done (n : nat) (s : pstate) : bool :=
     match p_hold s with [] => (Nat.leb n (p_cursor s)) || p_has_error s | _ => false end.
   (* what executeTransactionsParallel returns: the error, or results in block order *)
-  Fixpoint collect (s : pstate) (i n : nat) : option (list effects) :=
-    match n with
-    | O => Some []
-    | S n' => match rget i (p_res s) with
-              | Some (Some e) => match collect s (S i) n' with
-                                 | Some r => Some (e :: r) | None => None end
-              | _ => None
-              end
+  Fixpoint collect (res : list (nat * option effects)) (ts : list tx) (i : nat)
+    : option (list effects) :=
+    match ts with
+    | [] => Some []
+    | _ :: r => match rget i res with
+                | Some (Some e) => match collect res r (S i) with
+                                   | Some l => Some (e :: l) | None => None end
+                | _ => None
+                end
     end.
-  Definition p_outcome (n : nat) (s : pstate) : option (list effects) :=
-    if p_has_error s then None else collect s 0 n.
+  Definition p_outcome (ts : list tx) (s : pstate) : option (list effects) :=
+    if p_has_error s then None else collect (p_res s) ts 0.
 
   (* the gather loop of processParallel *)
   Fixpoint par_acct (pre : view) (claimed : bal) (es : list effects) (i : nat) (a : acct)
@@ -362,7 +363,6 @@ Section Model.
              (results : option (list effects)) : option (presult * view) :=
     let v0 := overlay pre claimed 0 in
     let e0 := b_pre b v0 in
-    if negb (e_ok e0) then None else   (* never: system calls do not return errors here *)
     match results with
     | None => None
     | Some es =>
